@@ -2,6 +2,7 @@ mod bulk;
 mod conc;
 mod gen;
 mod guards;
+mod hb;
 mod life;
 mod qalloc;
 mod sched;
